@@ -182,7 +182,7 @@ def _mk_ops():
     import torch
     W = MatVal
     ops = {
-        'val': lambda t: W(t.detach().clone()) if hasattr(t, 'detach') else W(t),
+        'val': lambda t: None if t is None else (W(t.detach().clone()) if hasattr(t, 'detach') else W(t)),
         'mul': lambda a, b: W(_m(a) @ _m(b)),
         'add': lambda a, b: W(_m(a) + _m(b)),
         'sub': lambda a, b: W(_m(a) - _m(b)),
